@@ -134,7 +134,7 @@ func c08Diag(r api.BuildResult) string {
 }
 
 func runC08(c *Check) {
-	c.Rule = "stateless model checking of the real build under a cooperative scheduler that owns every goroutine creation, mutex/wait-group/once/atomic/channel operation: all schedules within a deviation bound (preemptions + non-default picks at blocking points) around 3 default policies, for 4 module graphs; every execution's observation (outputs, hashes, metafile, mangle cache, diagnostics in order) must be identical; states = distinct schedules executed, transitions = scheduling decisions"
+	c.Rule = "stateless model checking of the real build under a cooperative scheduler that owns every goroutine creation, mutex/wait-group/once/atomic/channel operation: all schedules within a deviation bound (preemptions + non-default picks at blocking points) around 3 default policies, for 4 module graphs; every execution's observation (outputs, hashes, metafile, mangle cache, diagnostics in order) must be identical; states = distinct schedules executed, transitions = scheduling decisions; relocation: every graph x 5 option variants built at three absolute locations, results compared and scanned for the location"
 	c.Assump = []string{"the scheduler is sequentially consistent (no weak-memory effects); unsynchronised accesses are the business of the separate free-running -race pass", "Go's map iteration order is not controlled; replaying a schedule twice must give the same observation, otherwise the check reports an infrastructure error instead of a verdict"}
 	bound := 1
 	maxExecs := uint64(0)
